@@ -2,11 +2,15 @@ PROPERTY = {
     'id': 'C06',
     'contract_modules': ['checker'],
     'lemmas': ['placed_mono'],
-    'functions': ['xdoctest.checker:_ellipsis_match'],
+    'functions': ['xdoctest.checker:_ellipsis_match', 'xdoctest.checker:_check_match', 'xdoctest.checker:check_output#relation',
+                  'xdoctest.checker:normalize', 'xdoctest.checker:normalize.norm_repr', 'xdoctest.utils.util_str:strip_ansi',
+                  'xdoctest.checker:remove_blankline_marker'],
     'clauses': {
         'P': ['_ellipsis_match(got, want) == S.ellipsis_match(got, want) for all strings, any number of pieces '
               '(anchored ends, ordered non-overlapping middle pieces, no-ellipsis case is equality)',
-              'lemma placed_mono (window monotonicity)'],
+              'lemma placed_mono (window monotonicity)',
+              '_check_match / check_output (shared with C05): the wildcard relation is consulted only when ELLIPSIS is on; with ELLIPSIS off a want '
+              'containing "..." is compared like any other text (no shortcut before the flags are read)'],
         'T': ['re.split: the pieces of a want are S.pieces(want) (uninterpreted; len >= 2 when "..." occurs)',
               'str.find / startswith / endswith builtin contracts'],
         'B': ['executable contract on the real function over token-built (got, want) pairs'],
